@@ -258,7 +258,8 @@ def get_address_ranges(fm: NpuFeatureMap) -> List[Optional[NpuAddressRange]]:
         t2 = get_address_range(fm, strides, height_0, 0, 0, height - 1, min(width, width_0) - 1, depth - 1)
     else:
         t2 = None
-    if t1 is not None and t2 is not None:
+    if width > width_0 and height > height_1:
+        # Tile 3 holds the rows of the right-hand column from height_1 on, whether or not tile 2 is in use
         t3 = get_address_range(fm, strides, height_1, width_0, 0, height - 1, width - 1, depth - 1)
     else:
         t3 = None
